@@ -14,6 +14,21 @@ checks = {
  "C08": dict(engine="wgen", technique="runtime monitoring: every stage and backend of the real compiler is driven with generated valid programs under many option sets; any error value or panic is the observed violation",
    text="Held on the programs observed: valid-by-construction programs were accepted by parse, lower, validate, the one-call API and all four backends under every option set tried.",
    note="Assumes the generator only produces valid WGSL (type-directed construction; const-expressions pre-evaluated; alias and uniformity rules respected). Known rejections of valid programs are listed findings replayed from witnesses.", ref="DESIGN.md §4 C08"),
+ "C09": dict(engine="wgen+irstrict", technique="runtime monitoring: strict IR validator with an independent typifier run on every module LowerWithSource returns for generated programs and the corpus",
+   text="Held on the modules observed: each lowered module is checked against 18 rule groups of the IR contract (handles, typing vs an independent typifier, emit coverage/order, returns, stores, calls, bindings, layout, ir.Validate); per-rule and per-expression-kind counters show what was exercised.",
+   note="Trusted base: irstrict (second implementation of upstream's typifier/validator rules). Pervasive deviations of the pinned tree (literals inside Emit ranges, empty Splat types) are listed known findings attributed per finding class, so other rules stay live on the same modules.", ref="DESIGN.md §4 C09"),
+ "C11": dict(engine="wgen(inject)", technique="runtime monitoring: single rule-breaking injections (AST- and token-level) into valid generated programs; the compiler's verdict and reported position are checked against the known injection site",
+   text="Held on the (program, rule, site) triples observed: every injected error was rejected before output with a position inside the source / the enclosing declaration / at the first offending token.",
+   note="The uninjected program is checked to compile; each injection is the only error by construction. Diagnosed classes the pinned tree misses are listed known findings keyed by the injected variant.", ref="DESIGN.md §4 C11"),
+ "C13": dict(engine="wgen+irx+irstrict+verif hook", technique="runtime monitoring: differential execution of the IR before/after each pass in an independent IR interpreter, plus strict IR validation and idempotence by canonical dump",
+   text="Held on the executions observed for the Compact*/DeduplicateEmits passes and for InlineUserFunctions outside the listed defect traits; the DXIL pre-emission passes (sroa/mem2reg/dce) are so defective in the pinned tree that only new symptom classes (panic, new rule) are distinguishable there.",
+   note="Trusted base: irx (IR semantics incl. Alias/Phi), cross-checked against wref on every baseline execution; irstrict. Uses the verif hook dxil.VerifPrepareModule / VerifRunOptPasses / VerifRunPass.", ref="DESIGN.md §4 C13"),
+ "C18": dict(engine="wgen+dxbcx", technique="runtime monitoring: independent DXBC container / DxilContainer parts / LLVM 3.7 bitstream reader with hash recomputation run on every dxil.Compile output; double compilation for determinism",
+   text="Held on the containers observed for container, signature, PSV0, program-header, bitstream and module-table rules; function-level operand typing (rule F3) is a listed known finding of the experimental emitter.",
+   note="Trusted base: dxbcx's reading of the public DXBC/DxilContainer/LLVM-3.7 formats. No IDxcValidator is available offline; only well-formedness and self-consistency are judged.", ref="DESIGN.md §4 C18"),
+ "C19": dict(engine="wgen(edit)", technique="runtime monitoring: meaning-neutral source edits (blankspace/line-break variants, comments, parentheses, trailing commas, renaming) applied to generated and corpus sources; all artefacts of the edited source are compared with the original's",
+   text="Held on the (source, edit sequence) pairs observed: acceptance unchanged, canonical IR dump identical (names blanked), SPIR-V bytes and HLSL/MSL/GLSL text identical.",
+   note="An independent mini-lexer finds token boundaries in corpus files; edits never touch the inside of a token.", ref="DESIGN.md §4 C19"),
 }
 pending = {}
 for p in ALL:
